@@ -341,7 +341,8 @@ class GoCheck:
         if unreached:
             self.engine_problems.append("VACUOUS: assertion labels never reached: " + ", ".join(unreached))
         paths = sum(t.get("paths_done", 0) for t in self.tasks)
-        decisions = sum(t.get("decisions", 0) for t in self.tasks)
+        # transitions: branch decisions the solver or the simplifier resolved on symbolic data, plus forks at enumerated choices
+        decisions = sum(t.get("decisions", 0) + t.get("forks", 0) for t in self.tasks)
         queries = sum(t.get("queries", 0) for t in self.tasks)
         funcs = {}
         for t in self.tasks:
